@@ -32,7 +32,7 @@ from simkit.world import InvalidScenario, Monitor, Violation, repo_exception_sig
 
 PROPERTY = "C14"
 RUNS = {"quick": 4500, "thorough": 600_000}
-WALL = {"quick": 58, "thorough": 1500}
+WALL = {"quick": 90, "thorough": 1500}
 BATCH = {"quick": 50, "thorough": 400}
 SELFTEST_RUNS = 12
 RULE = (
